@@ -259,20 +259,30 @@ func c12TokRun(c c12TokCase) (o kit.Outcome) {
 		}
 	}
 
-	// matches tells whether Authenticate's answer is exactly the issued record.
-	matches := func(is *c12Issued, rec *auth.Rec) string {
+	// Observation only (no verdict): the serial number is configured as an int but signed
+	// as 16 bits; a verifier whose serial differs by a multiple of 65536 is outside the
+	// generated configurations (see assumptions) and is merely recorded.
+	wide, _ := c12NewAuth(c.Key, serial+65536, c.ExpireIn)
+
+	// matches tells whether Authenticate's answer is exactly the issued record and
+	// whether the remaining lifetime it reports stays within the issued validity.
+	matches := func(is *c12Issued, rec *auth.Rec) (sig, why string) {
 		if rec == nil {
-			return "nil record without error"
+			return "identity-wrong-record", "nil record without error"
 		}
 		if uint64(rec.Uid) != is.rec.Uid || int(rec.AuthLevel) != is.rec.Level || uint16(rec.Features) != is.rec.Features {
-			return fmt.Sprintf("got uid=%d level=%d features=%d, issued uid=%d level=%d features=%d",
+			return "identity-wrong-record", fmt.Sprintf("got uid=%d level=%d features=%d, issued uid=%d level=%d features=%d",
 				uint64(rec.Uid), int(rec.AuthLevel), uint16(rec.Features), is.rec.Uid, is.rec.Level, is.rec.Features)
 		}
 		now := time.Now()
-		if rec.Lifetime <= 0 || now.Add(time.Duration(rec.Lifetime)).After(is.expModel.Add(time.Millisecond)) {
-			return fmt.Sprintf("reported remaining lifetime %v but the issued validity ends in %v", time.Duration(rec.Lifetime), is.expModel.Sub(now))
+		if now.Add(time.Duration(rec.Lifetime)).After(is.expModel.Add(time.Millisecond)) {
+			return "reported-lifetime:outlives-issue", fmt.Sprintf("reported remaining lifetime %v but the issued validity ends in %v", time.Duration(rec.Lifetime), is.expModel.Sub(now))
 		}
-		return ""
+		if rec.Lifetime <= 0 {
+			// 0 means "use the default lifetime" when the record is used to issue the next token
+			return "reported-lifetime:not-positive", fmt.Sprintf("authenticated with remaining lifetime %v (validity ends in %v)", time.Duration(rec.Lifetime), is.expModel.Sub(now))
+		}
+		return "", ""
 	}
 
 	var issued []*c12Issued
@@ -322,8 +332,8 @@ func c12TokRun(c c12TokCase) (o kit.Outcome) {
 				if chal != nil {
 					return fail("identity-challenge", "%s: a valid token produced a challenge", v.name)
 				}
-				if why := matches(is, got); why != "" {
-					return fail("identity-wrong-record", "%s: freshly issued token authenticated with a different record: %s", v.name, why)
+				if sig, why := matches(is, got); why != "" {
+					return fail(sig, "%s: freshly issued token: %s", v.name, why)
 				}
 				accepted++
 			} else if !short {
@@ -404,8 +414,8 @@ func c12TokRun(c c12TokCase) (o kit.Outcome) {
 				refused++
 				continue
 			}
-			if why := matches(is, got); why != "" {
-				return fail("extension-wrong-record", "token extended by %x authenticated with a different record: %s", e, why)
+			if sig, why := matches(is, got); why != "" {
+				return fail("extension:"+sig, "token extended by %x: %s", e, why)
 			}
 			cls["ext:accepted-as-issued"] = true
 			// an extended token whose first bytes were altered is an altered token
@@ -424,6 +434,14 @@ func c12TokRun(c c12TokCase) (o kit.Outcome) {
 			}
 			refused++
 			cls["verifier:"+v.name+":refused"] = true
+		}
+		if wide != nil {
+			_, _, err := wide.Authenticate(append([]byte(nil), tok...), "")
+			cls[fmt.Sprintf("observed:verifier-serial+65536:accepted=%v", err == nil)] = true
+			if wt, _, err := wide.GenSecret(&auth.Rec{Uid: types.Uid(spec.Uid), AuthLevel: auth.Level(spec.Level), Features: auth.Feature(spec.Features), Lifetime: auth.Duration(time.Hour)}); err == nil {
+				_, _, err = wide.Authenticate(wt, "")
+				cls[fmt.Sprintf("observed:serial>65535-issuer-accepts-own-token=%v", err == nil)] = true
+			}
 		}
 		// --- a token of another issue of this case is a different secret: replaying
 		// the signature of one over the fields of another must fail
@@ -480,8 +498,8 @@ func c12TokRun(c c12TokCase) (o kit.Outcome) {
 				if err != nil {
 					return fail("refused:valid", "%s refused a token with %v of validity left: %v", v.name, left, err)
 				}
-				if why := matches(pr.is, got); why != "" {
-					return fail("identity-wrong-record", "%s: token authenticated with a different record %v before expiry: %s", v.name, left, why)
+				if sig, why := matches(pr.is, got); why != "" {
+					return fail(sig, "%s: token presented %v before the end of its validity: %s", v.name, left, why)
 				}
 				accepted++
 				cls["probe:valid:accepted"] = true
@@ -489,8 +507,8 @@ func c12TokRun(c c12TokCase) (o kit.Outcome) {
 				// last two seconds: the token format has one-second resolution and the
 				// verifier keeps a one-second margin; the statement does not fix this window.
 				if err == nil {
-					if why := matches(pr.is, got); why != "" {
-						return fail("identity-wrong-record", "%s: token authenticated with a different record %v before expiry: %s", v.name, left, why)
+					if sig, why := matches(pr.is, got); why != "" {
+						return fail(sig, "%s: token presented %v before the end of its validity: %s", v.name, left, why)
 					}
 					cls["probe:last-2s:accepted"] = true
 				} else {
